@@ -2,12 +2,12 @@ SPECIFICATION Spec
 CONSTANTS
   MaxLeaves = 2
   MaxLeaves2 = 2
-  Mod = 4
-  Rem = 0
+  Mod = 2
   Typings = {"O", "I", "M"}
   Tops = {"ret1", "ret2", "assign", "aug", "unpack"}
-  Dump = FALSE
+  Dump = TRUE
 INVARIANT AtMostOnce
+INVARIANT CanonInv
 INVARIANT StopsAtRaise
 INVARIANT AllEvaluated
 INVARIANT LeftToRight
